@@ -294,3 +294,27 @@ def sctx(repo: Repo, cls: Optional[str], name: str, module: Optional[str] = None
     cx.inlined = list(nz.inlined)
     cx.opaque = list(nz.opaque)
     return SCtx(cx)
+
+
+def shared(col: Collector, rule: str, fns, select=None, why: str = ""):
+    """Run rule functions of another property into a scratch collector and adopt their obligations under `rule`.
+
+    A property adopts a sibling's obligation only where that obligation is a genuine necessary condition of it
+    (the reason is given as `why` and ends up in the obligation text).  `select(ob)` restricts what is adopted;
+    informational notes are not adopted.  Returns the adopted obligations."""
+    sub = Collector(col.repo, col.prop, col.tier)
+    for fn in (fns if isinstance(fns, (list, tuple)) else [fns]):
+        fn(sub)
+    out = []
+    for o in sub.obs:
+        if o.note or (select is not None and not select(o)):
+            continue
+        o.facts = (o.facts + " " if o.facts else "") + f"[shared from {o.rule}" + (f": {why}" if why else "") + "]"
+        o.rule = rule
+        col.obs.append(o)
+        out.append(o)
+    return out
+
+
+def construct_tag(o) -> str:
+    return o.construct.split("#", 1)[1] if "#" in o.construct else o.construct
